@@ -397,7 +397,9 @@ def run(ctx):
                                    lambda c: names.attr_bound(c, anchored),
                                    lambda c: names.name_bound(c, anchored),
                                    lambda c: names.arg_order(c, anchored),
-                                   lambda c: names.col_byname(c, anchored)]
+                                   lambda c: names.col_byname(c, anchored),
+                                   lambda c: names.global_state(c, anchored),
+                                   lambda c: names.time_rtol(c, anchored)]
     # shared mutable state in the anchored modules makes every for-all-inputs claim depend on the
     # calls made before (two seeds - C06 round 2, C05 round 5 - hid a work buffer in a class
     # constant): PUR-GLOBAL on the anchored modules, unless the property runs it already
